@@ -5,6 +5,7 @@ Core-only.
 -/
 import Biogo.Go.Wire
 import Biogo.Model.ContWorld
+import Biogo.Model.ContAnn
 import Biogo.Spec.ContLaws
 import Biogo.Generated.Alphabets
 
@@ -104,7 +105,9 @@ def handleLine (inp obs : String) : Verdict :=
   | none => bad "unparsable-input"
   | some hist =>
     let tags := tagsOf hist
-    let model := runHistory hist.cx hist.init hist.ops
+    -- value model + `SubAnnotations` stored in slices on a heap, in lockstep (Model/ContAnn.lean);
+    -- equal to `runHistory` by `annotation_store_refines_values`
+    let model := runHistoryA false hist.cx hist.init hist.ops
     if model.any (·.1 == "panic") then { status := "skip", tags := tags ++ ["model-panics"] }
     else if obs.startsWith "panic:" || obs == "hang" then
       fail ("implementation-" ++ (obs.take 200).toString) tags
